@@ -70,6 +70,16 @@ Definition face_sides (F : list nat) : list (list nat) :=
 Definition complete_edges (edges0 faces : list (list nat)) : list (list nat) :=
   map key edges0 ++ dedup_by (fun e => e) (map key edges0) (flat_map face_sides faces).
 
+(* _prepare_edges (mesh_data.py): of the DECLARED edges only the valid ones (two distinct vertices in range) are kept, and of
+   several declarations of one undirected edge - in either direction - the first; completion then runs on that list *)
+Definition edge_valid (nv : nat) (E : list nat) : bool :=
+  match E with
+  | [a; b] => negb (a =? b) && (a <? nv) && (b <? nv)
+  | _ => false
+  end.
+Definition norm_edges (nv : nat) (edges0 : list (list nat)) : list (list nat) :=
+  dedup_by key [] (filter (edge_valid nv) edges0).
+
 (* ------------------------------------------------------------------ incidence tables (volume.py) *)
 Fixpoint index_first (p : nat -> bool) (l : list nat) (i : nat) : option nat :=
   match l with
